@@ -31,7 +31,7 @@ def nIdxFrom (k : Nat) : List Char → List Nat
   | c :: cs => if c = 'N' then k :: nIdxFrom (k + 1) cs else nIdxFrom (k + 1) cs
 
 /-- `np.where(line_chars == b"N")[0]` -/
-def nIndices (line : List Char) : List Nat := nIdxFrom 0 line
+abbrev nIndices (line : List Char) : List Nat := nIdxFrom 0 line
 
 /-- `if run_start is not None: yield (chrom, run_start, end)` -/
 def emitOpen (rs : Option Nat) (e : Nat) : List Run :=
@@ -132,15 +132,17 @@ def parseFasta (text : String) : List FLine := (splitLines text.toList).map pars
 
 /-! ### contig-name rule -/
 
+/-- one atom of the rule against one character: `some x` = the literal `x`, `none` = `\d` -/
+def atomOk (a : Option Char) (c : Char) : Bool :=
+  match a with
+  | some x => c == x
+  | none => c.isDigit
+
 /-- do the atoms match a prefix of `s`?  returns the rest -/
 def matchAtoms : List (Option Char) → List Char → Option (List Char)
   | [], s => some s
   | _ :: _, [] => none
-  | a :: as, c :: cs =>
-    let ok := match a with
-      | some x => c == x
-      | none => c.isDigit
-    if ok then matchAtoms as cs else none
+  | a :: as, c :: cs => if atomOk a c then matchAtoms as cs else none
 
 /-- the suffixes of `s`, longest first (`re.search` tries every start position) -/
 def suffixes : List Char → List (List Char)
@@ -191,12 +193,15 @@ def joinRegions (minGap : Option Int) (t : Table) : Except String Table :=
 
 def regionRow (r : Region) : Row := ⟨r.1, (r.2.1 : Int), (r.2.2 : Int), ""⟩
 
+/-- `if skip_noncanonical: fa_regions = drop_noncanonical_contigs(fa_regions)` -/
+def keepRegions (skip : Bool) (regs : List Region) : List Region :=
+  if skip then regs.filter (fun r => isCanonicalName r.1) else regs
+
 /-- `excludes` are the BED rows in file order; `tabio.read` sorts them -/
 def doAccess (lines : List FLine) (excludes : List Table) (minGap : Option Int) (skip : Bool) :
     Except String Table := do
   let regs ← getRegions lines
-  let kept := if skip then regs.filter (fun r => isCanonicalName r.1) else regs
-  let t : Table := kept.map regionRow
+  let t : Table := (keepRegions skip regs).map regionRow
   let t' := excludes.foldl (fun acc ex => subtractTable acc (sortTable ex)) t
   joinRegions minGap t'
 
